@@ -93,8 +93,22 @@ def variants_for(props=None):
     return out
 
 
-def run_for_property(pid, jobs=16):
+def thorough_variants(pid):
     vs = variants_for([pid])
+    # every behaviour-preserving variant, whatever property it was written for, must leave this check silent
+    from .variants import VARIANTS
+    have = {v["id"] for v in vs}
+    for v in VARIANTS:
+        if v["expect"] == "silent" and v["id"] not in have:
+            w = dict(v)
+            w["props"] = [pid]
+            w["id"] = v["id"] + "@" + pid
+            vs.append(w)
+    return vs
+
+
+def run_for_property(pid, jobs=16):
+    vs = thorough_variants(pid)
     if not vs:
         print("selftest: no variants for %s" % pid)
         return 0
